@@ -25,6 +25,9 @@ pub enum Kind {
 pub enum Call {
   /// subscribe observer i through `.take(k)`: it leaves by itself at its k-th item, possibly in the middle of a synchronous emission
   SubTake(usize, usize),
+  /// publish: connect() again without a disconnect in between - enumerated over cold sources only and
+  /// evaluated only where the source has terminated by itself inside the previous connect()
+  Reconnect,
   Sub(usize),
   Unsub(usize),
   Connect,
@@ -48,6 +51,7 @@ fn show(h: &[Call]) -> String {
       Call::Sub(i) => format!("subscribe_{}", i),
       Call::Unsub(i) => format!("unsubscribe_{}", i),
       Call::Connect => "connect".into(),
+      Call::Reconnect => "connect (again: the source had terminated by itself)".into(),
       Call::Disconnect => "disconnect".into(),
       Call::Emit(v) => format!("emit({})", v),
       Call::SrcComplete => "source-complete".into(),
@@ -115,6 +119,11 @@ fn rec(cur: &mut Vec<Call>, st: &mut St, kind: Kind, hot: bool, max_len: usize, 
       rec(cur, st, kind, hot, max_len, emit_from, out);
       st.connected = true;
       cur.pop();
+      if !hot {
+        cur.push(Call::Reconnect);
+        rec(cur, st, kind, hot, max_len, emit_from, out);
+        cur.pop();
+      }
     }
   }
   if hot && !st.src_done {
@@ -151,7 +160,7 @@ pub fn extensions(prefix: &[Call], kind: Kind, hot: bool, max_len: usize, sink: 
         st.plain.push(matches!(c, Call::Sub(_)));
       }
       Call::Unsub(i) => st.live[*i] = false,
-      Call::Connect => st.connected = true,
+      Call::Connect | Call::Reconnect => st.connected = true,
       Call::Disconnect => st.connected = false,
       Call::SrcComplete | Call::SrcError => st.src_done = true,
       Call::Emit(_) => {}
@@ -300,7 +309,7 @@ fn reference(kind: Kind, src: &Src, h: &[Call]) -> RefOut {
         }
       }
       Call::Unsub(i) => st.leave(*i),
-      Call::Connect => st.connect(src, &mut exp),
+      Call::Connect | Call::Reconnect => st.connect(src, &mut exp),
       Call::Disconnect => st.connected = false,
       Call::Emit(v) => {
         if st.connected {
@@ -396,7 +405,7 @@ fn run_real(kind: Kind, src: &Src, h: &[Call]) -> RealOut {
             s.unsubscribe()
           }
         }
-        Call::Connect => {
+        Call::Connect | Call::Reconnect => {
           if let Conn::P(p) = &conn {
             connection = Some(p.connect());
           }
@@ -491,6 +500,10 @@ pub fn check(tier: &str) -> Report {
           let mut local: BTreeMap<String, (String, u64)> = BTreeMap::new();
           let (mut runs, mut steps, mut nontriv) = (0u64, 0u64, 0u64);
           let mut eval = |h: &[Call]| {
+            if h.contains(&Call::Reconnect) && !matches!(src, Src::Cold(sc) if sc.last().map_or(false, |e| e.is_terminal())) {
+              // a second connect() while the first connection is live: not fixed by the statement
+              return;
+            }
             let exp = reference(*kind, src, h);
             let real = run_real(*kind, src, h);
             runs += 1;
